@@ -79,7 +79,7 @@ def build(case, seedkey="seed", force_real=False):
     elif not cplx and np.all(arr == np.round(arr)):
         # a real field whose storage type was asked for explicitly, in any documented spelling: the spectrum is complex
         dt = [None, None, np.float64, "float64", float, np.int64, np.dtype("float64")][case["seed"] % 7]
-    f = df.Field(mesh, nvdim=k, value=arr, dtype=dt, unit=case["unit"], **kw)
+    f = df.Field(mesh, nvdim=k, value=np.array(arr, copy=True), dtype=dt, unit=case["unit"], **kw)
     return mesh, f, arr
 
 
@@ -250,7 +250,7 @@ def check_inverse(case):
                 raise Violation("per-component", f"component {lab}")
     # position independence
     vec = [3.0 * float(c) for c in mesh.cell]
-    f2 = df.Field(mesh.translate(vec), nvdim=k, value=arr, dtype=f.array.dtype)
+    f2 = df.Field(mesh.translate(vec), nvdim=k, value=np.array(arr, copy=True), dtype=f.array.dtype)
     if np.max(np.abs(f2.fftn().array - F.array)) > tol:
         raise Violation("position-dependent")
 
